@@ -235,6 +235,8 @@ def fn_scico(rec, sh, cplx):
         return functional.NonNegativeIndicator()
     if k == "l21":
         return w * functional.L21Norm(l2_axis=0)
+    if k == "dwell":
+        return double_well(rec["a"], rec["b"], np.asarray(rec["c"], dtype=np.float64))
     if k == "sqloss":
         y = unflat(rec["y"], rec["yshape"], cplx)
         A = None if rec.get("A") is None else op_scico(rec["A"], sh, cplx)
@@ -245,8 +247,28 @@ def fn_scico(rec, sh, cplx):
     raise Infra(f"unknown functional recipe {k}")
 
 
+def double_well(a, b, c):
+    """smooth NON-convex functional f(x) = sum (a/4) x^4 - (b/2) x^2 + c x  (negative curvature for |x_i| < sqrt(b/(3a)));
+    the gradient is the library's autograd of __call__"""
+    import scico.numpy as snp
+    from scico import functional
+
+    cc = snp.array(c)
+
+    class DoubleWell(functional.Functional):
+        has_eval = True
+        has_prox = False
+
+        def __call__(self, x):
+            return snp.sum(a / 4.0 * x**4 - b / 2.0 * x**2 + cc * x)
+
+    return DoubleWell()
+
+
 def fn_model(rec, sh, cplx):
     k = rec["k"]
+    if k == "dwell":
+        return {"k": "dwell", "a": f2b(rec["a"]), "b": f2b(rec["b"]), "c": fs2b(rec["c"])}
     n = size_of(sh)
     w = float(rec.get("w", 1.0))
     c = 2 if cplx else 1
@@ -338,7 +360,11 @@ def make_policy(rec):
 
     kind = rec["kind"]
     if kind == "base" and rec.get("real", True):
-        return sop.PGMStepSize()
+        return None  # step_size=None: the constructor's own default object (the documented default path)
+    if kind == "bb" and rec.get("real", False):
+        return sop.BBStepSize()
+    if kind == "adaptiveBB" and rec.get("real", False):
+        return sop.AdaptiveBBStepSize(kappa=rec["kappa"])
     base = {"base": sop.PGMStepSize, "bb": sop.BBStepSize, "adaptiveBB": sop.AdaptiveBBStepSize,
             "lineSearch": sop.LineSearchStepSize, "robust": sop.RobustLineSearchStepSize}[kind]
     a, b, c, zc, zd = rec["a"], rec["b"], rec["c"], rec["zc"], rec["zd"]
@@ -384,6 +410,7 @@ class Built:
         self.zshapes = None  # ADMM: list; others: single shape
         self.ushape = None
         self.policy = None
+        self.model_alg = self.alg
         getattr(self, "_build_" + self.alg)()
 
     # ----- helpers
@@ -527,7 +554,19 @@ class Built:
         self.policy = make_policy(r["pol"])
         self.solver = cls(f=fn_scico(r["f"], xs, cx), g=fn_scico(r["g"], xs, cx), L0=r["L0"],
                           x0=unflat(r["x0"], xs, cx), step_size=self.policy, maxiter=1)
-        self.p = {"f": fn_model(r["f"], xs, cx), "g": fn_model(r["g"], xs, cx), "pol": policy_model(r["pol"])}
+        if self.policy is None:
+            self.policy = self.solver.step_size
+        if r.get("decoy_L0") is not None:
+            # history: a SECOND solver of the same class with another L0 and the default step-size object is constructed
+            # after this one and stays alive while this one is stepped (solvers must not share step-size state)
+            self.decoy = cls(f=fn_scico(r["f"], xs, cx), g=fn_scico(r["g"], xs, cx), L0=r["decoy_L0"],
+                             x0=unflat(r["x0"], xs, cx), maxiter=1)
+        if real_bb(r):
+            # the model runs its own transcription of BBStepSize / AdaptiveBBStepSize; their memory is part of the state
+            self.p = {"f": fn_model(r["f"], xs, cx), "g": fn_model(r["g"], xs, cx), "kappa": f2b(r["pol"].get("kappa", 0.5))}
+            self.model_alg = r["alg"] + ("-bb" if r["pol"]["kind"] == "bb" else "-abb")
+        else:
+            self.p = {"f": fn_model(r["f"], xs, cx), "g": fn_model(r["g"], xs, cx), "pol": policy_model(r["pol"])}
 
     def _build_apgm(self):
         from scico.optimize import AcceleratedPGM
@@ -549,6 +588,11 @@ class Built:
         if a == "pdhg":
             return {"x": F(s.x), "xold": F(s.x_old), "z": F(s.z), "zold": F(s.z_old)}
         mem = [0.0] if getattr(self.policy, "Z", None) is None else F(self.policy.Z)
+        if real_bb(self.recipe):
+            pl = self.policy
+            mem = {"xp": None if pl.xprev is None else F(pl.xprev), "gp": None if pl.gradprev is None else F(pl.gradprev),
+                   "l1": None if getattr(pl, "Lbb1prev", None) is None else float(pl.Lbb1prev),
+                   "l2": None if getattr(pl, "Lbb2prev", None) is None else float(pl.Lbb2prev)}
         if a == "pgm":
             return {"x": F(s.x), "L": float(s.L), "fpr": float(s.fixed_point_residual), "mem": mem}
         if a == "apgm":
@@ -579,15 +623,29 @@ class Built:
             if a == "apgm":
                 s.v = U(st["v"], self.xshape)
                 s.t = st["t"]
+            if real_bb(self.recipe) and isinstance(st.get("mem"), dict):
+                m, pl = st["mem"], self.policy
+                pl.xprev = None if m["xp"] is None else U(m["xp"], self.xshape)
+                pl.gradprev = None if m["gp"] is None else U(m["gp"], self.xshape)
+                if hasattr(pl, "Lbb1prev"):
+                    pl.Lbb1prev, pl.Lbb2prev = m["l1"], m["l2"]
         else:
             raise Infra("alg")
+
+
+def real_bb(recipe):
+    """PGM / AcceleratedPGM recipe that uses the library's own BBStepSize / AdaptiveBBStepSize"""
+    pol = recipe.get("pol") or {}
+    return pol.get("kind") in ("bb", "adaptiveBB") and pol.get("real", False) is True and "a" not in pol
 
 
 def state_json(st):
     """python-float state -> wire format (bit patterns)"""
     out = {}
     for k, v in st.items():
-        if isinstance(v, float):
+        if isinstance(v, dict):  # memory of the real BB policies
+            out[k] = {kk: (None if vv is None else (f2b(vv) if isinstance(vv, float) else fs2b(vv))) for kk, vv in v.items()}
+        elif isinstance(v, float):
             out[k] = f2b(v)
         elif len(v) > 0 and isinstance(v[0], list):
             out[k] = [fs2b(b) for b in v]
@@ -599,7 +657,9 @@ def state_json(st):
 def state_from_wire(st):
     out = {}
     for k, v in st.items():
-        if isinstance(v, int):
+        if isinstance(v, dict):
+            out[k] = {kk: (None if vv is None else (common.b2f(vv) if isinstance(vv, int) else common.b2fs(vv))) for kk, vv in v.items()}
+        elif isinstance(v, int):
             out[k] = common.b2f(v)
         elif len(v) > 0 and isinstance(v[0], list):
             out[k] = [common.b2fs(b) for b in v]
@@ -619,6 +679,8 @@ def state_scale(st):
     """largest magnitude of any finite entry of a state"""
     m = 0.0
     for v in st.values():
+        if isinstance(v, dict):
+            v = [x for vv in v.values() if vv is not None for x in (vv if isinstance(vv, list) else [vv])]
         if isinstance(v, float):
             vals = [v]
         elif len(v) > 0 and isinstance(v[0], list):
@@ -660,6 +722,17 @@ def states_close(a, b, rtol=1e-9, skip=()):
         va, vb = a[k], b.get(k)
         if vb is None:
             return k
+        if isinstance(va, dict):
+            if not isinstance(vb, dict):
+                return k
+            for kk, x in va.items():
+                y = vb.get(kk)
+                if (x is None) != (y is None):
+                    return k + "." + kk
+                if x is not None and not _vec_close(x if isinstance(x, list) else [x], y if isinstance(y, list) else [y],
+                                                    rtol * (1 if isinstance(x, list) else 8), scale):
+                    return k + "." + kk
+            continue
         if isinstance(va, float):
             if not _vec_close([va], [vb], rtol * 8, scale):
                 return k
@@ -778,7 +851,7 @@ def _maybe(rng, v, p_none=0.3):
 def _gen_admm(rng, cplx, edge):
     xs = gen_xshape(rng)
     N = int(rng.integers(1, 4))
-    solver = _pick(rng, ["linear", "linear", "matrix", "linear-jax", "circ"])
+    solver = _pick(rng, ["linear", "matrix", "matrix", "linear-jax", "circ"])
     if is_block(xs) or (len(xs) == 2 and solver != "circ"):
         solver = "linear"
     Cs = []
@@ -946,14 +1019,43 @@ def _gen_policy(rng, accel):
             "c": _pick(rng, [0.5, 1.0, 2.0]), "zc": _pick(rng, [1.0, 0.5, 0.75]), "zd": _pick(rng, [0.0, 0.25, 0.5])}
 
 
+def _gen_pgm_bb(rng, alg):
+    """PGM / AcceleratedPGM with the library's own BBStepSize / AdaptiveBBStepSize; half of the cases on a smooth NON-convex
+    double well started in its concave region, where dx.dg <= 0 and the BB value is rejected (history: the memory must still be
+    refreshed, so that later differences are between consecutive iterates)"""
+    n = int(rng.integers(2, 5))
+    kind = _pick(rng, ["bb", "bb", "adaptiveBB"])
+    pol = {"kind": kind, "real": True}
+    if kind == "adaptiveBB":
+        pol["kappa"] = _pick(rng, [0.5, 0.25, 0.75])
+    if rng.integers(0, 2):
+        f = {"k": "dwell", "a": _pick(rng, [1.0, 2.0]), "b": _pick(rng, [1.0, 2.0]), "c": dy(rng, (n,), 3, 0.25).tolist()}
+        x0 = dy(rng, (n,), 3, 0.5).tolist()
+        L0 = _pick(rng, [4.0, 8.0, 2.0])
+        cplx = False
+    else:
+        cplx = bool(rng.integers(0, 3) == 0)
+        f = gen_loss(rng, [n], cplx)
+        L = 2.0 * f["s"] * (1.0 if f["A"] is None else max(_opnorm2(f["A"], [n]), 1e-3)) * (1.0 if f.get("W") is None else max(max(f["W"]), 1e-3))
+        L0 = max(float(np.ceil(L * 64) / 64), 1.0 / 64)
+        x0 = rand_value(rng, [n], cplx)
+    return {"alg": alg, "cplx": cplx, "xshape": [n], "f": f, "g": gen_fn(rng, [n], cplx, ["l1", "sql2", "zero"] + ([] if cplx else ["nonneg"])),
+            "L0": L0, "x0": x0, "pol": pol}
+
+
 def _gen_pgm(rng, cplx, edge, alg="pgm"):
+    if rng.integers(0, 3) == 0:
+        return _gen_pgm_bb(rng, alg)
     xs = gen_xshape(rng, allow_2d=False)
     f = gen_loss(rng, xs, cplx)
     L = 2.0 * f["s"] * (1.0 if f["A"] is None else max(_opnorm2(f["A"], xs), 1e-3)) * (1.0 if f.get("W") is None else max(max(f["W"]), 1e-3))
     fac = _pick(rng, [1.0, 1.5, 2.0]) if not edge else _pick(rng, [1.0, 0.5, 0.75])
     L0 = float(np.ceil(fac * L * 64) / 64) if not edge else float(fac * L)
-    return {"alg": alg, "cplx": cplx, "xshape": xs, "f": f, "g": gen_fn(rng, xs, cplx, ["l1", "sql2", "nonneg", "l2", "zero"]),
-            "L0": max(L0, 1.0 / 64), "x0": rand_value(rng, xs, cplx), "pol": _gen_policy(rng, alg == "apgm")}
+    r = {"alg": alg, "cplx": cplx, "xshape": xs, "f": f, "g": gen_fn(rng, xs, cplx, ["l1", "sql2", "nonneg", "l2", "zero"]),
+         "L0": max(L0, 1.0 / 64), "x0": rand_value(rng, xs, cplx), "pol": _gen_policy(rng, alg == "apgm")}
+    if r["pol"]["kind"] == "base" and r["pol"].get("real", True) and rng.integers(0, 2):
+        r["decoy_L0"] = r["L0"] * _pick(rng, [2.0, 0.5, 4.0])
+    return r
 
 
 def _gen_apgm(rng, cplx, edge):
@@ -986,6 +1088,9 @@ def describe(recipe):
         parts += ["C=" + ("nonlinear" if recipe["nl"] is not None else recipe["C"]["t"]), "f=" + recipe["f"]["k"],
                   "g=" + recipe["g"]["k"], "alpha=%g" % recipe["alpha"]]
     else:
-        parts += ["A=" + ("id" if recipe["f"]["A"] is None else recipe["f"]["A"]["t"]), "g=" + recipe["g"]["k"],
-                  "pol=" + recipe["pol"]["kind"] + ("" if recipe["pol"].get("real", True) else "-spy")]
+        if recipe.get("decoy_L0") is not None:
+            parts.append("second-solver-alive")
+        parts += [("f=double-well" if recipe["f"]["k"] == "dwell" else "A=" + ("id" if recipe["f"]["A"] is None else recipe["f"]["A"]["t"])),
+                  "g=" + recipe["g"]["k"],
+                  "pol=" + recipe["pol"]["kind"] + ("-real" if real_bb(recipe) else ("" if recipe["pol"].get("real", True) else "-spy"))]
     return " ".join(parts)
